@@ -309,3 +309,27 @@ pub fn header_table_specs() -> Vec<(StreamSpec, serde_json::Value, bool)> {
     }
     out
 }
+
+/// Partition orders up to 15 (beyond the streamable subset's 8 and beyond what the crate's own encoder emits) on power-of-two
+/// blocks up to 32768 samples: every legal (order, predictor) pair for FIXED 0..4 and an order-2 LPC, both coding methods.
+pub fn partition_high_specs() -> Vec<(StreamSpec, serde_json::Value)> {
+    use serde_json::json;
+    let mut out = Vec::new();
+    for n in [512usize, 4096, 32768] {
+        for po in 0..=15u8 {
+            for fo in 0..=5u8 {
+                let pred = if fo == 5 { 2 } else { fo as usize };
+                if n % (1usize << po) != 0 || (n >> po) <= pred {
+                    continue;
+                }
+                let mut sub = plain_sub();
+                sub.kind = if fo == 5 { kind_of(8) } else { SubKind::Fixed(fo) };
+                sub.res = ResSpec { method: (po % 2) as u8, order: po, params: vec![PartParam::Auto, PartParam::Escape(None), PartParam::Rice(2)] };
+                let mut f = plain_frame(vec![target(if po % 3 == 0 { 3 } else { 0 }, 16, 0, n, 0, 0)]);
+                f.subframes[0] = sub;
+                out.push((plain_stream(1, 16, 44100, vec![f]), json!({"sweep":"partition-high","n":n,"order":po,"fixed":fo})));
+            }
+        }
+    }
+    out
+}
